@@ -16,7 +16,7 @@ struct UserBuf {
     void *ptr() { return mem.data() + lead; }
 };
 struct PendingReq { bool live = false; int kind = 0; int reqid = NC_REQ_NULL; std::shared_ptr<UserBuf> ub; Access *acc = nullptr; int var = 0; int opidx = -1; int file = 0; };
-struct RankState { std::vector<int> closed_ids; std::vector<int> ncid; std::vector<std::vector<PendingReq>> reqs; std::vector<std::vector<uint8_t>> abuf; };
+struct RankState { MPI_Comm comm = MPI_COMM_WORLD; /* the communicator files are created / opened with: MPI_COMM_WORLD or, for a third of the programs, a duplicate of it */ std::vector<int> closed_ids; std::vector<int> ncid; std::vector<std::vector<PendingReq>> reqs; std::vector<std::vector<uint8_t>> abuf; };
 struct Ctx {
     Program *p; RunOpts o; RunResult *res; int n;
     std::vector<RankState> rs;
@@ -402,13 +402,13 @@ struct Exec {
             MPI_Info info = make_info(op); int ncid = -1;
             int cmode = NC_CLOBBER | (op.a[0] == 2 ? NC_64BIT_OFFSET : op.a[0] == 5 ? NC_64BIT_DATA : 0);
             if (op.a[1]) cmode = (cmode & ~NC_CLOBBER) | NC_NOCLOBBER;
-            rc = lib([&] { return ncmpi_create(MPI_COMM_WORLD, op.name.c_str(), cmode, info, &ncid); });
+            rc = lib([&] { return ncmpi_create(me.comm, op.name.c_str(), cmode, info, &ncid); });
             if (info != MPI_INFO_NULL) MPI_Info_free(&info);
             rc_check(op, opi, rc, exp_rc(op), op.rc_any); me.ncid[op.file] = rc == NC_NOERR ? ncid : -1; break;
         }
         case OP_OPEN: {
             MPI_Info info = make_info(op); int ncid = -1;
-            rc = lib([&] { return ncmpi_open(MPI_COMM_WORLD, op.name.c_str(), op.a[0] ? NC_WRITE : NC_NOWRITE, info, &ncid); });
+            rc = lib([&] { return ncmpi_open(me.comm, op.name.c_str(), op.a[0] ? NC_WRITE : NC_NOWRITE, info, &ncid); });
             if (info != MPI_INFO_NULL) MPI_Info_free(&info);
             rc_check(op, opi, rc, exp_rc(op), op.rc_any); me.ncid[op.file] = rc == NC_NOERR ? ncid : -1; break;
         }
@@ -819,6 +819,8 @@ RunResult run_program(Program &p, const RunOpts &o) {
     res.rcs.assign(n, std::vector<OpResult>(p.ops.size()));
     sim::run(s, [&](int rank) {
         Exec e(c, rank);
+        bool owncomm = (p.seed % 3 == 1) && p.cfg.profile != "C18";
+        if (owncomm) MPI_Comm_dup(MPI_COMM_WORLD, &e.me.comm);
         for (size_t i = 0; i < p.ops.size(); i++) {
             e.run_op((int)i);
             if (o.stop_after_op >= 0 && (int)i == o.stop_after_op) { c.bar_arrived[i]++; Ctx *cp = &c; int n2 = n; size_t ii = i; sim::set_rank_desc("finished op#" + std::to_string(i) + ", waiting for the other ranks to return from it"); sim::block_until("harness-stop", [cp, ii, n2]() { return cp->bar_arrived[ii] >= n2; }); return; }
@@ -826,6 +828,7 @@ RunResult run_program(Program &p, const RunOpts &o) {
         // epilogue: close whatever the program left open (same set on every rank)
         sim::set_cur_op((int)p.ops.size());
         for (int f = 0; f < nslots; f++) if (e.me.ncid[f] >= 0) { sim::set_in_lib(true); ncmpi_close(e.me.ncid[f]); sim::set_in_lib(false); e.me.ncid[f] = -1; e.drop_reqs(f); }
+        if (owncomm) MPI_Comm_free(&e.me.comm);
     });
     res.completed = s.violations.empty();
     if (res.completed && o.check_leaks) {
